@@ -170,6 +170,38 @@ func c19Body(p c19Params) func() explore.SchedOutcome {
 				}
 				obs = append(obs, "final="+describe(final, cands))
 			}
+		case "bigpost":
+			// a post so large that its announcement (template + text) does not fit one 65,535-byte field: it is
+			// announced whole or refused, and nobody's stream is damaged
+			a, b := connect(1), connect(2)
+			vrt.EndSetup()
+			body := c19Text(p.Size, "P")
+			pid := a.Req(ref.TOldPostNews, ref.FS(ref.FData, body))
+			vrt.Settle(10 * time.Second)
+			r := a.Reply(pid)
+			for _, cl := range []*world.Client{a, b} {
+				cl.Poll()
+				if cl.ParseErr != nil || len(cl.Unparsed()) != 0 {
+					fail("announcement-damages-the-stream", fmt.Sprintf("%s after a post of %d bytes: parse error %v, %d stray bytes, chunks %v", cl.Name, p.Size, cl.ParseErr, len(cl.Unparsed()), chunkSizes(cl.Conn)))
+					continue
+				}
+				n := 0
+				for _, t := range cl.Inbox {
+					if t.Type == ref.TNewMsg {
+						n++
+						if got := fieldStr(&t, ref.FData); !strings.Contains(got, body) {
+							fail("announcement-does-not-carry-the-post", fmt.Sprintf("%s was sent a new-post notice of %d bytes for a post of %d bytes", cl.Name, len(got), len(body)))
+						}
+					}
+				}
+				if r != nil && r.Err == 0 && n != 1 {
+					fail("user-not-notified-of-post", fmt.Sprintf("%s received %d new-post notices for an acknowledged post of %d bytes", cl.Name, n, p.Size))
+				}
+				if (r == nil || r.Err != 0) && n != 0 {
+					fail("refused-post-announced", fmt.Sprintf("%s received %d notices although the post was not acknowledged (%v)", cl.Name, n, r))
+				}
+			}
+			obs = append(obs, fmt.Sprintf("acknowledged=%v", r != nil && r.Err == 0))
 		case "post-fault":
 			// a post whose disk write fails (the temporary file cannot be created) must not wedge the board:
 			// later readers, posters and logins are still served
@@ -177,8 +209,14 @@ func c19Body(p c19Params) func() explore.SchedOutcome {
 			tmp := filepath.Join(wd.ConfigDir, "MessageBoard.txt.tmp")
 			_ = os.MkdirAll(filepath.Join(tmp, "blocker"), 0755)
 			vrt.EndSetup()
-			a.Req(ref.TOldPostNews, ref.FS(ref.FData, "lost post"))
+			pid := a.Req(ref.TOldPostNews, ref.FS(ref.FData, "lost post"))
 			vrt.Settle(5 * time.Second)
+			// "is on disk when acknowledged": a post whose write failed is not acknowledged as a success
+			if r := a.Reply(pid); r != nil && r.Err == 0 {
+				if raw, _ := os.ReadFile(filepath.Join(wd.ConfigDir, "MessageBoard.txt")); !strings.Contains(string(raw), "lost post") {
+					fail("acknowledged-post-is-not-on-disk", fmt.Sprintf("the post was answered with a success reply while its disk write failed; the file holds %d bytes without it", len(raw)))
+				}
+			}
 			_ = os.RemoveAll(tmp)
 			id := b.Req(ref.TGetMsgs)
 			vrt.Settle(5 * time.Second)
@@ -278,6 +316,9 @@ func runC19(w *explore.Worker) {
 		bound int
 	}
 	var jobs []job
+	for _, sz := range []int{60000, 65400, 65440, 65470, 65500} {
+		jobs = append(jobs, job{c19Params{"bigpost", sz}, 0})
+	}
 	for _, sz := range []int{0, 1, 511, 512, 513, 2000, 40000, 65000} {
 		jobs = append(jobs, job{c19Params{"sweep", sz}, 0})
 	}
